@@ -45,20 +45,23 @@ static void enc_line(const char *r, const char *ret)
 	drv_puthex(stdout, win + done, open);
 	fputc('\n', stdout);
 }
-static void enc_push(const uint8_t *dat, size_t dlen)
+/* one data call with everything not yet taken (pending) plus the new bytes */
+static void enc_push(const uint8_t *add, size_t alen)
 {
 	struct iovec to, from;
 	char buf[32], r[48];
-	uint8_t *copy = malloc(dlen ? dlen : 1);   /* exact-size source: over-reads are caught */
-	memcpy(copy, dat, dlen);
+	size_t dlen = plen + alen;
+	uint8_t *dat = malloc(dlen ? dlen : 1);   /* exact-size source: over-reads are caught */
+	if (plen) memcpy(dat, pending, plen);
+	if (alen) memcpy(dat + plen, add, alen);
 	to.iov_base = win; to.iov_len = cap;
-	from.iov_base = copy; from.iov_len = dlen;
+	from.iov_base = dat; from.iov_len = dlen;
 	ssize_t n = enc(&est, &to, &from);
-	free(copy);
-	free(pending); pending = 0; plen = 0;
 	size_t took = n > 0 ? (size_t) n : 0;
 	if (took > dlen) took = dlen;
+	free(pending); pending = 0; plen = 0;
 	if (dlen - took) { plen = dlen - took; pending = malloc(plen); memcpy(pending, dat + took, plen); }
+	free(dat);
 	if (n < 0) { enc_line("refused n=0", drv_errname(n)); return; }
 	snprintf(r, sizeof(r), "ok n=%zd", n);
 	enc_line(r, retname(n, buf, sizeof(buf)));
@@ -232,17 +235,15 @@ int main(void)
 			}
 			else if (!strcmp(op, "more") && drv_nw == 2) {
 				if (!plen) { enc_line("idle", "0"); continue; }
-				dlen = plen; dat = malloc(dlen); memcpy(dat, pending, dlen);
-				enc_push(dat, dlen);
-				free(dat);
+				enc_push(0, 0);
 			}
 			else if (!strcmp(op, "term") && drv_nw == 2) {
 				struct iovec to;
 				char buf[32];
+				if (plen) { enc_line("pending", "0"); continue; }
 				to.iov_base = win; to.iov_len = cap;
 				ssize_t n = enc(&est, &to, 0);
 				if (n < 0) { enc_line("refused", drv_errname(n)); continue; }
-				free(pending); pending = 0; plen = 0;
 				last_start = frame_start; frame_start = est.done; have_frame = 1;
 				enc_line("ok", retname(n, buf, sizeof(buf)));
 			}
@@ -310,6 +311,26 @@ int main(void)
 			if (r == 1 && ds.data.msg >= 0) { printf(" msg="); drv_puthex(stdout, blk + ds.data.pos, ds.data.msg); }
 			else if (r < 0) printf(" err=%s", drv_errname(r));
 			else printf(" incomplete=%d", r);
+			printf(" | C - | I -\n");
+			free(blk); free(dat); free(fr);
+		}
+		else if (!strcmp(area, "pycmd") && drv_nw == 3) {
+			/* pycmd <msg> <frame returned by mpt.py:encode_command(msg) | raise> */
+			uint8_t *fr = 0; size_t flen = 0;
+			if (drv_parse_data(drv_w[1], &dat, &dlen, &isnull) || isnull) { puts("bad-op"); continue; }
+			if (!strcmp(drv_w[2], "raise")) { puts("R out=raise | C - | I -"); free(dat); continue; }
+			if (drv_parse_data(drv_w[2], &fr, &flen, &isnull) || isnull) { puts("bad-op"); free(dat); continue; }
+			size_t head = 2;
+			uint8_t *blk = malloc(head + flen + 1);
+			MPT_STRUCT(decode_state) ds = MPT_DECODE_INIT;
+			struct iovec v;
+			memset(blk, 0xDD, head); memcpy(blk + head, fr, flen);
+			ds.curr = head; v.iov_base = blk; v.iov_len = head + flen;
+			int r = mpt_decode_command(&ds, &v, 1);
+			printf("R out="); drv_puthex(stdout, fr, flen);
+			if (r == 1 && ds.data.msg >= 0) { printf(" msg="); drv_puthex(stdout, blk + ds.data.pos, ds.data.msg); }
+			else if (r < 0) printf(" err");
+			else printf(" err");
 			printf(" | C - | I -\n");
 			free(blk); free(dat); free(fr);
 		}
